@@ -121,6 +121,7 @@ def rule_Y7(ctx, rule: str = "Y7") -> None:
                 ctx.proved(rule, name, mod.loc(fns[q]), f"writers in construct phase: {construct_w}" + (f"; render-time writers too: {render_only}" if render_only else ""))
     ctx.floor(rule, "construct-phase state reads", n_ob, 5)
 
+    rule_Y7d(ctx, rule)
     # Y7b: annotation producers agree on builtin shadowing
     ann = {q: f for q, f in fns.items() if q.endswith(".annotation")}
     if len(ann) < 2:
@@ -162,3 +163,40 @@ def rule_Y7(ctx, rule: str = "Y7") -> None:
                             f"{cls}.annotation can emit the builtins. prefix on its own condition but {cls} does not define use_builtins accordingly: `import builtins` is not recorded")
             else:
                 ctx.proved(rule, f"{cls}.use_builtins:agrees-with-annotation", mod.loc(ub))
+
+
+def rule_Y7d(ctx, rule: str = "Y7") -> None:
+    """the table of shadowed builtins holds the names that are *emitted* as class attributes: it is built with the same
+    naming function as FieldCompiler.py_name"""
+    mod = ctx.repo.mod(M_MODELS)
+    fns = _functions(mod.tree)
+    py = fns.get("FieldCompiler.py_name")
+    if py is None:
+        raise AnalysisError("FieldCompiler.py_name not found")
+    namers = {ast.unparse(c.func) for n in ast.walk(py) if isinstance(n, ast.Return) and n.value is not None for c in ast.walk(n.value) if isinstance(c, ast.Call)}
+    writers = []
+    for q, f in fns.items():
+        for n in ast.walk(f):
+            if isinstance(n, ast.Assign) and any(isinstance(t, ast.Attribute) and t.attr == "builtins_types" for t in n.targets):
+                writers.append((q, f, n))
+    if not writers:
+        ctx.proved(rule, "builtins_types:emitted-names", mod.loc(py), "no table of shadowed builtins is built")
+        return
+    for q, f, n in writers:
+        # follow one level of local definitions used in the assigned expression
+        exprs = [n.value]
+        for x in ast.walk(n.value):
+            if isinstance(x, ast.Name):
+                for a in ast.walk(f):
+                    if isinstance(a, ast.Assign) and any(isinstance(t, ast.Name) and t.id == x.id for t in a.targets):
+                        exprs.append(a.value)
+        calls = {ast.unparse(c.func) for e in exprs for c in ast.walk(e) if isinstance(c, ast.Call)}
+        raw_names = any(isinstance(a, ast.Attribute) and a.attr == "name" for e in exprs for a in ast.walk(e))
+        if namers & calls or any("py_name" in ast.unparse(e) for e in exprs):
+            ctx.proved(rule, f"{q}:builtins_types:emitted-names", mod.loc(n), ",".join(sorted(namers & calls)) or "py_name")
+        elif raw_names:
+            ctx.refuted(rule, f"{q}:builtins_types:emitted-names", "raw-proto-names", mod.loc(n),
+                        f"the shadowed-builtins table is filled with the raw proto field names, but the class attributes are named by {sorted(namers)}: a field `Str`/`BOOL`/`Int` is "
+                        "emitted as `str`/`bool`/`int` and shadows the builtin without being in the table", "message M { int32 Str = 1; string s = 2; }")
+        else:
+            ctx.inconclusive(rule, f"{q}:builtins_types:emitted-names", "construction of the table not recognised", mod.loc(n))
